@@ -266,3 +266,74 @@ func delimFree(p []byte, d string) []byte {
 	}
 	return p
 }
+
+// RefDecode is the reference decoder: the frames (in delivered form) that are completely contained in stream,
+// in order, up to the first incomplete or malformed frame.
+//
+//go:norace
+func (s *FrameSpec) RefDecode(stream []byte) (frames [][]byte, ends []int) {
+	pos := 0
+	for pos < len(stream) {
+		rest := stream[pos:]
+		switch s.Kind {
+		case fkLengthField, fkPrepender, fkLFRef:
+			hdr := s.Offset + s.FieldLen
+			if len(rest) < hdr {
+				return
+			}
+			var v uint64
+			f := rest[s.Offset:hdr]
+			switch s.FieldLen {
+			case 1:
+				v = uint64(f[0])
+			case 2:
+				v = uint64(s.Order.Uint16(f))
+			case 4:
+				v = uint64(s.Order.Uint32(f))
+			case 8:
+				v = s.Order.Uint64(f)
+			}
+			if v > 1<<62 {
+				return
+			}
+			total := int64(v) + int64(s.Adjust) + int64(hdr)
+			if total < int64(hdr) || total > int64(s.Max) || int64(s.Strip) > total || total > int64(len(rest)) {
+				return
+			}
+			frames = append(frames, rest[s.Strip:total])
+			pos += int(total)
+		case fkVarint:
+			v, n := binary.Uvarint(rest)
+			if n <= 0 || v > uint64(s.Max) || uint64(len(rest)-n) < v {
+				return
+			}
+			frames = append(frames, rest[n:n+int(v)])
+			pos += n + int(v)
+		case fkDelimiter:
+			idx := -1
+			for i := 0; i+len(s.Delim) <= len(rest) && i+len(s.Delim) <= s.Max; i++ {
+				if string(rest[i:i+len(s.Delim)]) == s.Delim {
+					idx = i
+					break
+				}
+			}
+			if idx < 0 {
+				return
+			}
+			if s.StripDelim {
+				frames = append(frames, rest[:idx])
+			} else {
+				frames = append(frames, rest[:idx+len(s.Delim)])
+			}
+			pos += idx + len(s.Delim)
+		default:
+			if len(rest) < s.Fixed {
+				return
+			}
+			frames = append(frames, rest[:s.Fixed])
+			pos += s.Fixed
+		}
+		ends = append(ends, pos)
+	}
+	return
+}
